@@ -99,15 +99,21 @@ while the same `(alias, compact)` pair is already being unfolded further up the 
 again. (`c` is not a union and not a direct member of the alias, as in `check_ref_type_compact`.) -/
 theorem C12_alias_reentry_stops (e : Env) (ip : List (Name × Ty)) (f lvl : Nat) (n : Name) (c o : Ty)
     (d : Decl) (hd : e.find n = some d) (hk : d.kind = .alias (some o)) (hu : c.isUnion = false)
-    (hc : (match o with
-      | .union oms => oms.toList.contains c
-      | _ => decide (o = c)) = false)
+    (h1 : ∀ oms, o = .union oms → oms.toList.contains c = false) (h2 : o.isUnion = false → o ≠ c)
     (hip : (n, c) ∈ ip) : checkRef e ip (f + 1) lvl n c = .recursion := by
   unfold checkRef
   simp only [hd, hk]
   cases c with
   | union _ => simp [Ty.isUnion] at hu
-  | _ => simp only [hc]; simp [hip]
+  | _ =>
+    cases o with
+    | union oms =>
+      have hh := h1 oms rfl
+      simp at hh
+      simp [hh, hip]
+    | _ =>
+      have hh := h2 rfl
+      simp [hh, hip]
 
 /-- the alias pairs recorded on the way down are exactly the unfoldings in progress: one more per
 unfolding, so an unfolding chain cannot be longer than the number of distinct `(alias, compact)`
